@@ -27,7 +27,26 @@ def hexByte (n : Nat) : String :=
      "rejs":[<json> …]?, "sched":[bool …]?}`   (second writer: rejection lines of the reader task,
      interleaved with the writer task's sends by the schedule, `true` = writer task next)
    -> `{"bytes":"<hex>","sends":n,"closed":bool}` -/
+def guardJson (r : Except GuardErr Unit) : Lean.Json :=
+  match r with
+  | .ok _ => Lean.Json.str "ok"
+  | .error .valueError => Lean.Json.str "ValueError"
+  | .error .runtimeError => Lean.Json.str "RuntimeError"
+
+def getHist (j : Lean.Json) : List LifeOp :=
+  match j.getObjValAs? (Array String) "history" with
+  | .ok a => a.toList.map (fun s => if s == "enter" then LifeOp.enter else LifeOp.exit)
+  | .error _ => []
+
+/-- `{"m":"stdio_writer","guard":"ctor","command":bool,"args":bool}` | `{"guard":"streams"|"transport","history":["enter"|"exit"…]}`
+   -> `{"guard":"ok"|"ValueError"|"RuntimeError"}`; otherwise the writer query below -/
 def handle (j : Lean.Json) : Except String Lean.Json := do
+  match j.getObjValAs? String "guard" with
+  | .ok "ctor" =>
+    return Lean.Json.mkObj [("guard", guardJson (ctorCheck (← j.getObjValAs? Bool "command") (← j.getObjValAs? Bool "args")))]
+  | .ok "streams" => return Lean.Json.mkObj [("guard", guardJson (useStreams (getHist j)))]
+  | .ok "transport" => return Lean.Json.mkObj [("guard", guardJson (transportGetStreams (getHist j)))]
+  | _ => pure ()
   let items ← (← j.getObjValAs? (Array Lean.Json) "items").toList.mapM (fun it => do
     let k ← it.getObjValAs? String "k"
     match k with
